@@ -8,7 +8,7 @@ from kvstatic.core import Repo, Report, ModelError, AnchorError, norm
 from kvstatic import oracle, simtab, simops
 from kvstatic.mvlogic import Logic, run_branch
 from kvstatic.tt import LaneViolation
-from kvstatic.astutil import (find_all, attr_chain, is_name, call_name, find_dispatch_loops, check_rebinding,
+from kvstatic.astutil import (find_all, attr_chain, is_name, call_name, find_dispatch_loops, check_rebinding, resolve_locs,
                               body_no_doc, target_names)
 from checks import c01, c12
 
@@ -59,8 +59,7 @@ def branch_tables(rep, repo, lg, rid_prefix='C02'):
     tables = {}
     infos = {}
     for m, d in chains.items():
-        tn, src, table = check_rebinding(d)
-        ok = tn == [d.outvar] + d.invars and src == tn and table is not None and table.split('.')[-1] == 'c_locs'
+        ok = resolve_locs(d)
         rep.ob(f'{rid_prefix}.rebind', f'm={m}', ok)
         if not ok:
             rep.violate(f'{rid_prefix}.rebind', mod, cp, d.rebinding, f'm=={m}: index variables are not mapped 1:1 through c_locs', node=d.rebinding)
@@ -72,7 +71,7 @@ def branch_tables(rep, repo, lg, rid_prefix='C02'):
                 rep.violate(f'{rid_prefix}.exhaust', mod, cp, test, f'm=={m}: branch key sim.{const} is not a LUT constant', node=test)
                 continue
             try:
-                res, info = run_branch(lg, body, m, d.outvar, d.invars, list(tv), arr='self.c')
+                res, info = run_branch(lg, body, m, d.loc_out, d.loc_ins, list(tv), arr='self.c')
             except LaneViolation as e:
                 rep.violate(f'{rid_prefix}.comp', mod, cp, body[0], f'm=={m} branch {const}: {e}', node=body[0])
                 continue
